@@ -16,8 +16,8 @@ type idleListener struct {
 }
 
 func (l *idleListener) Accept() (net.Conn, error) { <-l.closed; return nil, net.ErrClosed }
-func (l *idleListener) Close() error             { l.once.Do(func() { close(l.closed) }); return nil }
-func (l *idleListener) Addr() net.Addr           { return &net.TCPAddr{} }
+func (l *idleListener) Close() error              { l.once.Do(func() { close(l.closed) }); return nil }
+func (l *idleListener) Addr() net.Addr            { return &net.TCPAddr{} }
 
 // lateserve  ENDING(close|shutdown)  ORDER(after|race)
 //
